@@ -78,11 +78,13 @@ func key(ckind, k int) core.Value {
 	return core.SuInt(k)
 }
 
+// size is a single call on every kind of container (for records, which have no Size of
+// their own, the number of named members: adding up two calls would not be one operation).
 func size(c core.Container) int {
 	if ob, ok := c.(*core.SuObject); ok {
 		return ob.Size()
 	}
-	return c.ListSize() + c.NamedSize()
+	return c.NamedSize()
 }
 
 // apply performs one operation on a container and renders the result; Suneido level
